@@ -87,6 +87,15 @@ def cconform(v, wd, name, c, schedules, invs=CINVS[:6], max_failures=3, page_siz
         if r["accepted"]:
             v.traces += len(split_behaviours(cur))
             v.events += nev
+            if mode == "impl" and not dev and os.environ.get("VERIF_OBS_ALSO"):
+                # self-test: whatever TraceCloud accepts, ObsCloud must accept too
+                ro = tlc_trace(wd, name + ".obsalso", "ObsCloud.tla", ocfg, cur)
+                v.extra["property_level_selftest_traces"] = \
+                    v.extra.get("property_level_selftest_traces", 0) + len(split_behaviours(cur))
+                if not ro["accepted"]:
+                    v.tool_errors.append(f"{name}: ObsCloud rejects a trace that TraceCloud accepts: "
+                                         f"{json.dumps(ro['event'])[:300]} invariant={ro['violated']} "
+                                         f"(see {ro['out']})")
             if mode == "obs":
                 v.extra["validated_at_property_level_only"] = \
                     v.extra.get("validated_at_property_level_only", 0) + len(split_behaviours(cur))
